@@ -17,7 +17,7 @@ import (
 func TestVerifC19FLP(t *testing.T) {
 	defer vlib.Done()
 	sub := "flp/sumvec"
-	vlib.Check(t, vlib.N(600, 4000), func(t *rapid.T) {
+	vlib.Check(t, vlib.N(600, 2500), func(t *rapid.T) {
 		nbits := uint(rapid.SampledFrom([]int{1, 2, 3, 8, 16, 64, 0}).Draw(t, "bits"))
 		if nbits == 0 {
 			nbits = uint(rapid.IntRange(1, 64).Draw(t, "bits.v"))
